@@ -4,6 +4,8 @@ import (
 	"encoding/json"
 	"fmt"
 	"math/rand"
+	"os"
+	"path/filepath"
 	"strings"
 	"time"
 )
@@ -21,6 +23,8 @@ var docNotes = []struct{ text, name, value string }{
 	{"#weight : 81 kg", "weight", "81 kg"},
 	{"#  place:  at home  ", "place", "at home"},
 	{"# 2 cups", "", "2 cups"},
+	{"# mood: felt 100% today", "mood", "felt 100% today"},
+	{"# 50% of the %s plan (%d)", "", "50% of the %s plan (%d)"},
 }
 
 // printReplay (C14): every enumerated log, written in random layout variants with notes of the documented
@@ -150,6 +154,34 @@ func printReplay(e *env) error {
 				cp, err3 := run(pb, "csv", "log")
 				if err3 != nil || cp != cb {
 					e.mismatch("print-period-differs", site, fmt.Sprintf("print -b %s | csv log gives %q, csv log -b gives %q (%v)", b, cp, cb, err3), rec)
+				}
+			}
+		}
+		// the same with the date format coming from the configuration file or the environment (real binary)
+		if bin := os.Getenv("VERIF_BIN"); bin != "" && layout != "2006/01/02" && idx%37 == 0 {
+			dir := filepath.Join(os.Getenv("VERIF_SCRATCH"), fmt.Sprintf("print-%d", idx))
+			os.MkdirAll(dir, 0o755)
+			defer os.RemoveAll(dir)
+			writeFile(filepath.Join(dir, "log.yaml"), log)
+			writeFile(filepath.Join(dir, "cfg.ini"), "[Global]\nDateFormat="+layout+"\n")
+			for _, how := range []string{"config", "env"} {
+				var env, pre []string
+				if how == "config" {
+					pre = []string{"-c", filepath.Join(dir, "cfg.ini")}
+				} else {
+					env = []string{"HR_DATE_FORMAT=" + layout}
+				}
+				b1 := runBinary(dir, env, nil, append(append([]string{}, pre...), "print")...)
+				e.count(0, 1, 0)
+				if b1.Exit != 0 {
+					e.mismatch("report-fails", site, fmt.Sprintf("print with the date format from the %s fails: %s", how, firstLine(b1.Stderr)), rec)
+					continue
+				}
+				writeFile(filepath.Join(dir, "printed.yaml"), b1.Stdout)
+				b2 := runBinary(dir, env, nil, append(append([]string{}, pre...), "-l", filepath.Join(dir, "printed.yaml"), "print")...)
+				e.count(0, 1, 0)
+				if b2.Exit != 0 || b2.Stdout != b1.Stdout || b1.Stdout != p1 {
+					e.mismatch("printed-log-unreadable", site, fmt.Sprintf("date format %q from the %s: print writes %q; reading it back under the same options: exit %d %s", layout, how, b1.Stdout, b2.Exit, firstLine(b2.Stderr)), rec)
 				}
 			}
 		}
